@@ -204,6 +204,8 @@ pub fn run_seq(trace: &Trace, skip: &BTreeSet<usize>, opts: &SeqOpts) -> SeqOutc
     let mut last_snap = sut.snapshot(base, cfg.weigher);
     // C04 (unsync): excess created by a weight-growing update may persist until the
     // next housekeeping operation returns.
+    let mut gets_issued: u64 = 0;
+    let universe_small = ops.iter().all(|o| o.op.key().map(|k| k < KEY_UNIVERSE_MAX).unwrap_or(true));
     let mut growth_excess_pending = false;
     let mut excess_prev = 0u64;
     // C03 "fits" rule bookkeeping
@@ -343,6 +345,17 @@ pub fn run_seq(trace: &Trace, skip: &BTreeSet<usize>, opts: &SeqOpts) -> SeqOutc
                     // and exactly-once drop are still judged for this run.
                     dead_run = true;
                     rep.flag("panic_after_injected_panic", 1);
+                } else if msg.contains(crate::hooks::RETRY_LIVELOCK) {
+                    rep.viol(
+                        "C09.livelock",
+                        format!(
+                            "{} (op #{}) kept retrying to queue its write op more than {} times: the write queue is full and maintenance no longer runs",
+                            op.name(), i, crate::hooks::RETRY_LIMIT
+                        ),
+                        i,
+                        op.key(),
+                    );
+                    dead_run = true;
                 } else {
                     rep.viol(
                         "C08.internal-panic",
@@ -673,6 +686,33 @@ pub fn run_seq(trace: &Trace, skip: &BTreeSet<usize>, opts: &SeqOpts) -> SeqOutc
                         }
                     }
                 }
+            }
+
+            // C14's "only get records" clause, monitored here (credited to C13): no estimate
+            // can exceed the number of get calls issued so far
+            if quiescent && universe_small {
+                if let Op::Get { .. } = op {
+                    gets_issued += 1;
+                }
+                let bound = gets_issued.min(15) as u8;
+                for k in 0..KEY_UNIVERSE_MAX {
+                    let e = sut.estimate(k);
+                    if e > bound {
+                        rep.viol(
+                            "C13.estimator-fed-by-non-get",
+                            format!(
+                                "after {}: the popularity estimate of key {} is {} although only {} get calls were issued so far",
+                                op.name(), k, e, gets_issued
+                            ),
+                            i,
+                            Some(k),
+                        );
+                        break;
+                    }
+                }
+                rep.flag("c13_estimator_bound_checks", 1);
+            } else if let Op::Get { .. } = op {
+                gets_issued += 1;
             }
 
             // C12/C13 exact policy model (bounded to universes smaller than one batch)
